@@ -262,10 +262,17 @@ package kvql
 // in this call) of the pairs that are returned; AdjustChunkCache re-indexes the chunk caches by it.
 //@ define ascIdx(idx []int, bound Int) Bool = (forall j Int :: 0 <= j && j < len(idx) ==> 0 <= idx[j] && idx[j] < bound) && (forall j Int :: 0 <= j && j + 1 < len(idx) ==> idx[j] < idx[j + 1])
 //@ func (c *ExecuteCtx) AdjustChunkCache(chooseIdxes []int)
-//@   trusted thin contract (frame and the shape of its argument), body not yet verified
-//@   requires c != nil
+//@   props C03 C05
+//@   requires c != nil && (c.EnableCache ==> c.FieldChunkCaches != nil)
 //@   requires[C03] asc: forall j Int :: 0 <= j && j + 1 < len(chooseIdxes) ==> chooseIdxes[j] < chooseIdxes[j + 1]
-//@   assigns mapof(c.FieldChunkCaches)
+//@   assigns mapof(c.FieldChunkCaches), mapof(c.FieldChunkKeyCaches)
+//@   ensures[C03, C05] nokeys: c.EnableCache && c.FieldChunkKeyCaches != nil ==> (forall q B :: !has(c.FieldChunkKeyCaches, q))
+//@   loop 0
+//@     invariant fresh(cidxes)
+//@   loop 1
+//@     invariant fresh(cidxes)
+//@   loop 2
+//@     invariant fresh(cidxes) && (isnil(nv) || fresh(nv))
 //
 // Exact result of one Batch call of a scan: chooseIdxes[j] is the offset (from the cursor position
 // at entry) of the j-th returned pair; every returned pair is the stored pair at that position
@@ -273,16 +280,17 @@ package kvql
 // PlanBatchSize means the cursor is exhausted.
 //@ define gapLo(idx []int, j Int) Int = ite(j == 0, 0, idx[j - 1] + 1)
 //@ func (p *FullScanPlan) Batch(ctx *ExecuteCtx) (ret []KVPair, err error)
-//@   props C01 C03 C13
+//@   props C01 C03 C13 C05
 //@   ghost j Int
 //@   ghost m Int
-//@   requires p != nil && wfFilter(p.Filter) && wfCur(p.iter) && !failed && ctx != nil && PlanBatchSize > 0
+//@   requires p != nil && wfFilter(p.Filter) && wfCur(p.iter) && !failed && ctx != nil && PlanBatchSize > 0 && (ctx.EnableCache ==> ctx.FieldChunkCaches != nil)
 //@   assigns cpos(p.iter), nops, failed, lastErr, ctx.Hit, mapof(ctx.FieldCaches), mapof(ctx.FieldChunkKeyCaches), mapof(ctx.FieldChunkCaches)
 //@   ensures[C01, C03] pos: err == nil ==> wfCur(p.iter) && old(cpos(p.iter)) <= cpos(p.iter) && len(local(chooseIdxes)) == len(ret) && ascIdx(local(chooseIdxes), cpos(p.iter) - old(cpos(p.iter)))
 //@   ensures[C01, C03] rows: err == nil && 0 <= j && j < len(ret) ==> val(ret[j].Key) == ckey(p.iter, old(cpos(p.iter)) + local(chooseIdxes)[j]) && val(ret[j].Value) == cval(p.iter, old(cpos(p.iter)) + local(chooseIdxes)[j]) && passes(p.Filter, val(ret[j].Key), val(ret[j].Value))
 //@   ensures[C01, C03] gaps: err == nil && 0 <= j && j < len(ret) && gapLo(local(chooseIdxes), j) <= m && m < local(chooseIdxes)[j] ==> !passes(p.Filter, ckey(p.iter, old(cpos(p.iter)) + m), cval(p.iter, old(cpos(p.iter)) + m))
 //@   ensures[C01, C03] tail: err == nil && gapLo(local(chooseIdxes), len(ret)) <= m && m < cpos(p.iter) - old(cpos(p.iter)) ==> !passes(p.Filter, ckey(p.iter, old(cpos(p.iter)) + m), cval(p.iter, old(cpos(p.iter)) + m))
 //@   ensures[C01, C03] end: err == nil && len(ret) < PlanBatchSize ==> cpos(p.iter) == clen(p.iter)
+//@   ensures[C05] nokeys: err == nil && ctx.EnableCache && ctx.FieldChunkKeyCaches != nil ==> (forall q B :: !has(ctx.FieldChunkKeyCaches, q))
 //@   ensures[C13] readonly: nmut == old(nmut)
 //@   ensures[C13] surfaced: (failed ==> err == lastErr) && (err == nil ==> !failed)
 //@   loop 0
@@ -313,10 +321,10 @@ package kvql
 // Prefix scan: as the full scan, inside the region of keys that carry the prefix. The batch may
 // consume one pair beyond the region (the first key without the prefix): s = 1 in the invariants.
 //@ func (p *PrefixScanPlan) Batch(ctx *ExecuteCtx) (ret []KVPair, err error)
-//@   props C01 C03 C13 C18
+//@   props C01 C03 C13 C18 C05
 //@   ghost j Int
 //@   ghost m Int
-//@   requires p != nil && wfFilter(p.Filter) && wfCur(p.iter) && !failed && ctx != nil && PlanBatchSize > 0
+//@   requires p != nil && wfFilter(p.Filter) && wfCur(p.iter) && !failed && ctx != nil && PlanBatchSize > 0 && (ctx.EnableCache ==> ctx.FieldChunkCaches != nil)
 //@   requires (cpos(p.iter) < clen(p.iter) ==> val(p.Prefix) <= ckey(p.iter, cpos(p.iter)))
 //@   useatret csorted(p.iter, old(cpos(p.iter)), cpos(p.iter) - 1)
 //@   useatret csorted(p.iter, cpos(p.iter) - 1, m)
@@ -327,6 +335,7 @@ package kvql
 //@   ensures[C01, C03] tail: err == nil && gapLo(local(chooseIdxes), len(ret)) <= m && m < cpos(p.iter) - old(cpos(p.iter)) ==> !(pre(val(p.Prefix), ckey(p.iter, old(cpos(p.iter)) + m)) && passes(p.Filter, ckey(p.iter, old(cpos(p.iter)) + m), cval(p.iter, old(cpos(p.iter)) + m)))
 //@   ensures[C01, C03] end: err == nil && len(ret) < PlanBatchSize && cpos(p.iter) <= m && m < clen(p.iter) ==> !pre(val(p.Prefix), ckey(p.iter, m))
 //@   ensures[C18] region: err == nil && 0 <= m && m < cpos(p.iter) - old(cpos(p.iter)) - 1 ==> pre(val(p.Prefix), ckey(p.iter, old(cpos(p.iter)) + m))
+//@   ensures[C05] nokeys: err == nil && ctx.EnableCache && ctx.FieldChunkKeyCaches != nil ==> (forall q B :: !has(ctx.FieldChunkKeyCaches, q))
 //@   ensures[C13] readonly: nmut == old(nmut)
 //@   ensures[C13] surfaced: (failed ==> err == lastErr) && (err == nil ==> !failed)
 //@   loop 0
@@ -370,10 +379,10 @@ package kvql
 // Range scan: as the full scan, inside [Start, End]. The batch may consume one pair beyond the
 // region (the first key above End).
 //@ func (p *RangeScanPlan) Batch(ctx *ExecuteCtx) (ret []KVPair, err error)
-//@   props C01 C03 C13 C18
+//@   props C01 C03 C13 C18 C05
 //@   ghost j Int
 //@   ghost m Int
-//@   requires p != nil && wfFilter(p.Filter) && wfCur(p.iter) && !failed && ctx != nil && PlanBatchSize > 0
+//@   requires p != nil && wfFilter(p.Filter) && wfCur(p.iter) && !failed && ctx != nil && PlanBatchSize > 0 && (ctx.EnableCache ==> ctx.FieldChunkCaches != nil)
 //@   requires (cpos(p.iter) < clen(p.iter) ==> (isnil(p.Start) || val(p.Start) <= ckey(p.iter, cpos(p.iter))))
 //@   useatret csorted(p.iter, cpos(p.iter) - 1, m)
 //@   assigns cpos(p.iter), nops, failed, lastErr, ctx.Hit, mapof(ctx.FieldCaches), mapof(ctx.FieldChunkKeyCaches), mapof(ctx.FieldChunkCaches)
@@ -383,6 +392,7 @@ package kvql
 //@   ensures[C01, C03] tail: err == nil && gapLo(local(chooseIdxes), len(ret)) <= m && m < cpos(p.iter) - old(cpos(p.iter)) ==> !((isnil(p.End) || ckey(p.iter, old(cpos(p.iter)) + m) <= val(p.End)) && passes(p.Filter, ckey(p.iter, old(cpos(p.iter)) + m), cval(p.iter, old(cpos(p.iter)) + m)))
 //@   ensures[C01, C03] end: err == nil && len(ret) < PlanBatchSize && cpos(p.iter) <= m && m < clen(p.iter) ==> !(isnil(p.End) || ckey(p.iter, m) <= val(p.End))
 //@   ensures[C18] region: err == nil && 0 <= m && m < cpos(p.iter) - old(cpos(p.iter)) - 1 ==> inRng(p, ckey(p.iter, old(cpos(p.iter)) + m))
+//@   ensures[C05] nokeys: err == nil && ctx.EnableCache && ctx.FieldChunkKeyCaches != nil ==> (forall q B :: !has(ctx.FieldChunkKeyCaches, q))
 //@   ensures[C13] readonly: nmut == old(nmut)
 //@   ensures[C13] surfaced: (failed ==> err == lastErr) && (err == nil ==> !failed)
 //@   loop 0
@@ -428,15 +438,16 @@ package kvql
 // every stored, passing key read in the call is among the returned pairs is not stated: it needs an
 // existential over the result, which the solvers do not carry through the three loops.)
 //@ func (p *MultiGetPlan) Batch(ctx *ExecuteCtx) (ret []KVPair, err error)
-//@   props C01 C03 C13 C18
+//@   props C01 C03 C13 C18 C05
 //@   ghost j Int
 //@   ghost m Int
-//@   requires wfMGet(p) && !failed && ctx != nil && PlanBatchSize > 0
+//@   requires wfMGet(p) && !failed && ctx != nil && PlanBatchSize > 0 && (ctx.EnableCache ==> ctx.FieldChunkCaches != nil)
 //@   assigns p.idx, nops, failed, lastErr, lastGet, ctx.Hit, mapof(ctx.FieldCaches), mapof(ctx.FieldChunkKeyCaches), mapof(ctx.FieldChunkCaches)
 //@   ensures[C01, C03] inv: wfMGet(p) && old(p.idx) <= p.idx
 //@   ensures[C01, C03] rows: err == nil && 0 <= j && j < len(ret) ==> shas(val(ret[j].Key)) && val(ret[j].Value) == sget(val(ret[j].Key)) && passes(p.Filter, val(ret[j].Key), val(ret[j].Value)) && member(p.Keys, len(p.Keys), val(ret[j].Key))
 //@   ensures[C01, C03] end: err == nil && len(ret) < PlanBatchSize ==> p.idx == p.numKeys
 //@   ensures[C18] oneperkey: nops - old(nops) == p.idx - old(p.idx)
+//@   ensures[C05] nokeys: err == nil && ctx.EnableCache && ctx.FieldChunkKeyCaches != nil ==> (forall q B :: !has(ctx.FieldChunkKeyCaches, q))
 //@   ensures[C13] readonly: nmut == old(nmut)
 //@   ensures[C13] surfaced: (failed ==> err == lastErr) && (err == nil ==> !failed)
 //@   loop 0
